@@ -7,7 +7,7 @@ BOUNDS = {
              "splitUniform step in {1,2,3} x halos (pre,post) in {0,1}^2 (n <= 2 with halos), absolute and relative coordinates; splitNonUniform with 1..2 symbolic "
              "boundaries (+halo 1); splitEqual size in {1,2}; splitUnEqual sizes [1,1],[2,1],[1]; / and // shorthands; re-split of partitions; depth-1 splits through "
              "Tensor.split* on [2,1] and [1,0]",
-    "thorough": "n <= 4, halos up to 2, step 4, 3 boundaries, sizes [1,2],[2,2], depth-1 splits on [2,2] and depth-2 on [[1,1]]",
+    "thorough": "n <= 4 (halos up to 2 for n <= 3, with a fixed active range at n = 3), step 4, 3 boundaries, sizes [1,2],[2,2], depth-1 splits on [2,2] and depth-2 on [[1,1]]",
 }
 OUTSIDE = "symbolic step/halo/size (kept concrete so // and % stay linear); tuple coordinates; more stored elements than the bound"
 ASSUMPTIONS = ["A1 integers only", "S1, S2 (|coord| < 2**62)", "coordinates >= 0 (they live inside a shape)"]
@@ -280,17 +280,19 @@ def obligations(tier):
             # uniform
             for step in ((1, 2, 3) if q else (1, 2, 3, 4)):
                 halos = [(0, 0)]
-                if n <= 2 or not q:
+                if n <= 2 or (not q and n == 3):
+                    # thorough: larger halos, and 3 coordinates with a fixed active range; 4 coordinates run without halos
+                    # (3+ coordinates, a symbolic active range and two halos together do not finish: measured at design time)
                     halos += [(1, 0), (0, 1), (1, 1)] if q else [(1, 0), (0, 1), (1, 1), (2, 1), (1, 2)]
                 for pre_h, post_h in halos:
                     for rel in ((False, True) if (pre_h, post_h) == (0, 0) else (False,)):
-                        active = not (n == 3 and (pre_h, post_h) != (0, 0))
+                        active = not (n >= 3 and (pre_h, post_h) != (0, 0))
                         ps, pre = base(n, active)
                         obs.append(Ob("uniform/%d/%s/s%d/h%d%d/%s" % (n, ptag, step, pre_h, post_h, "rel" if rel else "abs"), "uniform",
                                       dict(n=n, pat=list(pat), active=active, step=step, pre=pre_h, post=post_h, rel=rel), ps, pre))
             # non-uniform
             for k in ((1, 2) if q else (1, 2, 3)):
-                for pre_h, post_h in ([(0, 0), (1, 1)] if n <= 2 or not q else [(0, 0)]):
+                for pre_h, post_h in ([(0, 0), (1, 1)] if n <= 2 else [(0, 0)]):
                     ps, pre = base(n, True)
                     bn = names("b", k)
                     obs.append(Ob("nonuniform/%d/%s/k%d/h%d%d" % (n, ptag, k, pre_h, post_h), "nonuniform",
@@ -298,7 +300,7 @@ def obligations(tier):
                                   pre + chain_pre(bn) + bound_pre(bn, 0, None)))
             # equal / unequal in position space
             for size in (1, 2):
-                for pre_h, post_h in ([(0, 0), (1, 1)] if n <= 2 or not q else [(0, 0)]):
+                for pre_h, post_h in ([(0, 0), (1, 1)] if n <= 2 else [(0, 0)]):
                     ps, pre = base(n, True)
                     obs.append(Ob("equal/%d/%s/sz%d/h%d%d" % (n, ptag, size, pre_h, post_h), "equal",
                                   dict(n=n, pat=list(pat), active=True, size=size, pre=pre_h, post=post_h, rel=False), ps, pre))
